@@ -221,7 +221,7 @@ func init() {
 		if it.To > len(muts) {
 			it.To = len(muts)
 		}
-		for k := it.From; k < it.To; k++ {
+		for k := it.From; k < it.To && !it.Pairs; k++ {
 			m := muts[k]
 			if len(res.Samples) < 6 {
 				res.Samples = append(res.Samples, it.Kind+" "+m.String())
@@ -246,6 +246,51 @@ func init() {
 					})
 				})
 			}
+		}
+		if it.Pairs {
+			// thorough: all pairs (i<j) among every 5th substitution, i in [From,To)
+			var sub []tamper.Mut
+			for k := 0; k < len(muts); k += 5 {
+				sub = append(sub, muts[k])
+			}
+			res.Total = len(sub)
+			for i := it.From; i < it.To && i < len(sub); i++ {
+				for j := i + 1; j < len(sub); j++ {
+					if sub[i].Path == sub[j].Path {
+						continue
+					}
+					mi, mj := sub[i], sub[j]
+					label := mi.String() + " AND " + mj.String()
+					if strings.HasPrefix(it.Kind, "req:") {
+						m1 := tamper.Apply(base, mi)
+						if m1 == nil {
+							continue
+						}
+						msg := tamper.Apply(m1, mj)
+						if msg == nil {
+							continue
+						}
+						attempt(label, func(c *sim.Cluster) error {
+							_, err := c.ProcessRPC(0, "hostile "+it.Kind, msg)
+							return err
+						})
+					} else {
+						attempt(label, func(c *sim.Cluster) error {
+							return deliverResponse(it, c, func(kind string, resp interface{}) interface{} {
+								m1 := tamper.Apply(resp, mi)
+								if m1 == nil {
+									return resp
+								}
+								if m2 := tamper.Apply(m1, mj); m2 != nil {
+									return m2
+								}
+								return m1
+							})
+						})
+					}
+				}
+			}
+			return json.Marshal(res)
 		}
 		// afterwards valid exchanges still work and make the same progress as on a twin that never saw the hostile input
 		if it.State == "mid" || it.State == "fresh" {
@@ -299,7 +344,14 @@ func init() {
 		for from := 0; from < nb; from += 3 {
 			items = append(items, HostileItem{State: "mid", Kind: "byz", From: from, To: from + 3})
 		}
-		_ = th
+		if th {
+			for _, k := range []string{"req:eager", "req:join", "req:sync", "resp:sync", "resp:ff"} {
+				n := (probeCount("mid", k) + 4) / 5
+				for from := 0; from < n; from += 2 {
+					items = append(items, HostileItem{State: "mid", Kind: k, From: from, To: from + 2, Pairs: true})
+				}
+			}
+		}
 		raw := make([]json.RawMessage, len(items))
 		for i, it := range items {
 			raw[i], _ = json.Marshal(it)
@@ -355,7 +407,7 @@ func init() {
 			samples = append(samples, s)
 		}
 		cov["samples"] = samples
-		cov["rule"] = "(A) valid SyncRequest / EagerSyncRequest / FastForwardRequest / JoinRequest built in the current state, and valid SyncResponse / EagerSyncResponse / FastForwardResponse / JoinResponse captured from an honest peer, with every single field (recursively, by reflection over the exported structure: strings, ints, byte slices, slices incl. nil elements, maps incl. unknown / re-encoded keys, pointers) replaced by every value of the hostile grammar, delivered to node 0 in the states fresh / mid-history with blocks / suspended / catching-up (requests through the real processRPC, responses through the node's own pull, push, fastForward, join against a hostile responder). (B) byte streams on the real NetworkTransport connection handler over a pipe with the real processRPC as consumer: every prefix of every valid encoded request, single-byte substitutions from {0x00,'\"','{','[','}',0xff} at every position of the short requests, unknown type bytes, wrong-shaped JSON. (C) well-formed messages of a Byzantine validator: events re-signed with a validator key whose self-parent is that validator's last / second-to-last / third-to-last known event (forks) and whose index is correct, off by one, 0, -1, huge or the next free one, delivered as an eager-sync request and as a sync response; after each, valid exchanges must succeed as on a twin and the cluster must reach quiescence. Oracle: no panic crosses the recover boundary placed where the real code has none; blocks already delivered unchanged; afterwards valid exchanges succeed and reach the same cluster state as on a twin that never saw the hostile input"
+		cov["rule"] = "(A) valid SyncRequest / EagerSyncRequest / FastForwardRequest / JoinRequest built in the current state, and valid SyncResponse / EagerSyncResponse / FastForwardResponse / JoinResponse captured from an honest peer, with every single field (recursively, by reflection over the exported structure: strings, ints, byte slices, slices incl. nil elements, maps incl. unknown / re-encoded keys, pointers) replaced by every value of the hostile grammar (thorough: additionally all pairs among every fifth substitution for the mid-history state), delivered to node 0 in the states fresh / mid-history with blocks / suspended / catching-up (requests through the real processRPC, responses through the node's own pull, push, fastForward, join against a hostile responder). (B) byte streams on the real NetworkTransport connection handler over a pipe with the real processRPC as consumer: every prefix of every valid encoded request, single-byte substitutions from {0x00,'\"','{','[','}',0xff} at every position of the short requests, unknown type bytes, wrong-shaped JSON. (C) well-formed messages of a Byzantine validator: events re-signed with a validator key whose self-parent is that validator's last / second-to-last / third-to-last known event (forks) and whose index is correct, off by one, 0, -1, huge or the next free one, delivered as an eager-sync request and as a sync response; after each, valid exchanges must succeed as on a twin and the cluster must reach quiescence. Oracle: no panic crosses the recover boundary placed where the real code has none; blocks already delivered unchanged; afterwards valid exchanges succeed and reach the same cluster state as on a twin that never saw the hostile input"
 		rep.Assumptions = []string{"'all byte strings' is covered up to the stated grammar; resource exhaustion is not modelled", "a hostile message that is a valid message (state changes) is not an error; the instance is rebuilt afterwards"}
 		return rep.Finish()
 	}
